@@ -125,8 +125,10 @@ def coq_closure(prop_mod):
 
 
 def coq_make(targets, timeout=1500):
-    """Full .vo build of the given targets (relative to coq/), under the coq lock."""
-    with Lock("coq"):
+    """Full .vo build of the given targets (relative to coq/).  The Makefile is regenerated
+    under a short lock; if `make -q` says the targets are up to date nothing else is locked,
+    otherwise the build runs under the coq lock (two makes must not compile one file at once)."""
+    with Lock("coq-makefile"):
         gen = os.path.join(COQ, "_CoqProject.gen")
         want = open(os.path.join(COQ, "_CoqProject")).read() + "".join(
             os.path.relpath(p, COQ) + "\n" for p in coq_sources())
@@ -136,6 +138,11 @@ def coq_make(targets, timeout=1500):
             rc, out = sh("coq_makefile -f _CoqProject.gen -o Makefile.gen", cwd=COQ, timeout=120)
             if rc != 0:
                 return False, out
+    if targets:
+        rc, out = sh(["make", "-f", "Makefile.gen", "-q"] + list(targets), cwd=COQ, timeout=300)
+        if rc == 0:
+            return True, "up to date"
+    with Lock("coq"):
         rc, out = sh(["make", "-f", "Makefile.gen", f"-j{NCPU}"] + list(targets), cwd=COQ, timeout=timeout)
         return rc == 0, out
 
@@ -173,7 +180,8 @@ def print_assumptions(prop_mod, names, timeout=600):
             res[n] = []
         else:
             ax = re.findall(r"^([A-Za-z_][A-Za-z0-9_.']*)\s*:", blk, flags=re.M)
-            res[n] = ax
+            # "Axioms:" / "Opaque constants:" ... are section headers of the listing, not names
+            res[n] = [a for a in ax if a not in ("Axioms", "Opaque", "Transparent", "Section", "Variables", "Fetching")]
     return res, out
 
 
@@ -474,15 +482,21 @@ class Ctx:
             ev["coverage"]["notes"] = self.notes
         if not ev["coverage"]["samples"]:
             ev["coverage"]["samples"] = ["(no cases explored: proof obligations only)"]
-        os.makedirs(os.path.join(VERIF, "evidence"), exist_ok=True)
-        with open(os.path.join(VERIF, "evidence", self.pid + ".json"), "w") as f:
+        # evidence/ always describes /repo; runs against another tree (VERIF_REPO) write elsewhere
+        evdir = os.path.join(VERIF, "evidence") if REPO == "/repo" else os.path.join(CACHE, "evidence-" + repo_tag())
+        os.makedirs(evdir, exist_ok=True)
+        with open(os.path.join(evdir, self.pid + ".json"), "w") as f:
             json.dump(ev, f, indent=1, default=str)
         for k in self.known_hits:
             print(f"KNOWN-FINDING: property={self.pid} {k['what']}")
         if not self.violations:
             self.log(f"OK ({wall:.1f}s)")
             return 0
-        rd = os.path.join(VERIF, "replays", self.pid)
+        rd = os.path.join(VERIF, "replays", self.pid if REPO == "/repo" else self.pid + "-" + repo_tag())
+        if os.path.isdir(rd):       # replays of an earlier run with the same tier/seed are stale
+            for old in os.listdir(rd):
+                if old.startswith(f"{self.tier}-{self.seed}-"):
+                    os.remove(os.path.join(rd, old))
         os.makedirs(rd, exist_ok=True)
         for i, v in enumerate(self.violations[:5]):
             p = os.path.join(rd, f"{self.tier}-{self.seed}-{i}.json")
